@@ -512,8 +512,15 @@ func AnyStr(name string) string {
 // maxLen: list / map sizes are chosen in [0, maxLen).
 var MaxLenQuick = 3
 
+// ThoroughLenCap, when > 0, bounds the sizes of the thorough tier too (pairs
+// of nested containers grow with the square of the number of values).
+var ThoroughLenCap = 0
+
 func maxLen() int {
 	if sv.Thorough() {
+		if ThoroughLenCap > 0 {
+			return ThoroughLenCap
+		}
 		return 4
 	}
 	return MaxLenQuick
